@@ -13,17 +13,21 @@ TYPES = {
 BOUNDARY = [r'^std::vector<cocls::publisher<int>::queue::subreg_t', r'^std::deque<int', r'^std::vector<cocls::awaiter\*', r'^cocls::awaiter::resume\(',
             r'^cocls::suspend_point<void>::~suspend_point', r'__normal_iterator<cocls::', r'std::copy<int const\*, std::front_insert_iterator', r'^void std::swap<cocls::awaiter\*']
 LIBS = ['rt_core.c', 'rt_atomic_seq.c', 'model_mutex.c', 'model_pubsub.c']
+HOOK_LOCK = 'CV_ON_LOCK(m) { extern void c16_on_lock(void *); c16_on_lock((void *)(m)); }'
+HOOK_UNLOCK = 'CV_ON_UNLOCK(m) { extern void c16_on_unlock(void *); c16_on_unlock((void *)(m)); }'
 HOOK_REG = 'PS_ON_REG_OTHER(i) { extern void c16_reg_other(cv_i64); c16_reg_other(i); }'
 def rx(sig): return '^' + ''.join('\\' + c if c in '()*&[]{}+?.|' else c for c in sig) + '$'
-def unit(name, alias, sig, extra_names=None, extra_boundary=(), defines=(), spec=None, **kw):
+def unit(name, alias, sig, extra_names=None, extra_boundary=(), defines=(), spec=None, extra_roots=(), **kw):
     r = rx(sig)
     nm = {alias: r}; nm.update(extra_names or {})
-    d = dict(name=name, driver='c16_pub.cpp', roots=[r], names=nm, types=TYPES, boundary=BOUNDARY + list(extra_boundary), lib=LIBS,
-             spec=spec or ['C16/ps_spec.h', 'C16/h_ps.c'], harness='h_' + name, enforce=alias, defines=[HOOK_REG] + list(defines),
+    d = dict(name=name, driver='c16_pub.cpp', roots=[r] + list(extra_roots), names=nm, types=TYPES, boundary=BOUNDARY + list(extra_boundary), lib=LIBS,
+             spec=spec or ['C16/ps_spec.h', 'C16/h_ps.c'], harness='h_' + name, enforce=alias, defines=[HOOK_REG, HOOK_LOCK, HOOK_UNLOCK] + list(defines),
              under_contract=[sig], timeout=600)
     d.update(kw)
     return d
 QS = 'cocls::publisher<int>::queue::'
+MIN_IL_RX = r'^unsigned long std::min<unsigned long>\(std::initializer_list<unsigned long>\)$'
+KICK_PRED_RX = r'^cocls::publisher<int>::queue::kick_lk\(.*lambda.*::operator\(\)'
 SUBP = 'cocls::subscriber<int> const*'
 UNITS = [
     unit('subscribe_lk_pos', 'q_subscribe_lk_pos', QS + 'subscribe_lk(%s, unsigned long)' % SUBP),
@@ -33,5 +37,10 @@ UNITS = [
     unit('advance_lk', 'q_advance_lk', QS + 'advance_lk(unsigned long, cocls::subscribtion_type)'),
     unit('advance_suspend_lk', 'q_advance_suspend_lk', QS + 'advance_suspend_lk(unsigned long, cocls::awaiter*)'),
     unit('get_value_lk', 'q_get_value_lk', QS + 'get_value_lk(unsigned long, cocls::subscribtion_type)'),
+    unit('push_lk', 'q_push_lk', QS + 'push_lk(std::unique_lock<std::mutex>&, unsigned long)', loop_contracts=True, defines=['C16_UNLOCK_PUSH 1'],
+         extra_boundary=[MIN_IL_RX],
+         extra_names={'std_min_il': MIN_IL_RX}),
+    unit('kick_lk', 'q_kick_lk', QS + 'kick_lk(%s, std::unique_lock<std::mutex>&)' % SUBP, extra_boundary=[r'std::find_if<'], extra_roots=[KICK_PRED_RX],
+         extra_names={'kick_pred': KICK_PRED_RX, 'kick_find_if': r'std::find_if<.*kick_lk'}),
 ]
 META = dict(level='proof', level_text='TODO', level_note='TODO', technique='TODO', trusted_base=[], assumptions=[], explanation='see level_text')
